@@ -952,8 +952,9 @@ def gen_domain(rng, dmin=1, dmax=5, allow_fixed=True, force_constraints=None):
     bounds.append([lo, lo + w])
   nfix = 0
   if allow_fixed and d >= 2 and rng.random() < 0.35:
-    nfix = rng.randint(1, min(2, d - 1))
-  fixed_idx = sorted(rng.sample(range(d), nfix))
+    nfix = rng.randint(1, min(3, d - 1))
+  # insertion order of the dict handed to FixedIndicesOnContinuousDomain: ascending, descending or arbitrary
+  fixed_idx = rng.sample(range(d), nfix)
   fixed = {}
   for i in fixed_idx:
     fixed[str(i)] = rng.choice([bounds[i][0], bounds[i][1], r3(rng, bounds[i][0], bounds[i][1])])
